@@ -37,6 +37,7 @@ def opt(x):
 
 
 PRE = {False: 0, None: 0, 'resume': 1, 'restart': 2, 'resample': 3, 'reroute': 4}
+SPF_CODE = {None: 0, 'hi': 1, 'idle': 2, 'cls': 3}     # the harness's server priority functions (netbuild.SPF)
 NEXT_TYPE = {'end_service': 0, 'shift_change': 1, 'renege': 2, 'class_change': 3, 'slotted_service': 4, None: 5}
 
 
@@ -95,7 +96,8 @@ def enc_cfg(cfg, init=None):
         disc = {'FIFO': 0, 'LIFO': 1, 'SIRO': 2}[cfg['disc'][j]] if cfg.get('disc') is not None else 0
         pre = PRE[cfg['preempt'][j]] if (cfg.get('preempt') is not None and cfg.get('prio') is not None) else 0
         ren = [1 if (cfg.get('ren') is not None and cfg['ren'][cl][j] is not None) else 0 for cl in range(k)]
-        nodes.append([cap, [] if ccm is None else [ccm], disc, enc_srv(c), pre, 1 if any(ren) else 0, ren])
+        spf = SPF_CODE[cfg['spf'][j]] if cfg.get('spf') is not None else 0
+        nodes.append([cap, [] if ccm is None else [ccm], disc, enc_srv(c), pre, 1 if any(ren) else 0, ren, spf])
     prio = cfg.get('prio') or [0] * k
     routing = [enc_routing(cfg['routing'][c], n) for c in range(k)]
     bk = [[([] if (cfg.get('baulk') is None or cfg['baulk'][c][j] is None) else [list(cfg['baulk'][c][j])]) for j in range(n)] for c in range(k)]
